@@ -264,4 +264,26 @@ theorem noHiddenEnd_map_row (rs : List Row) : NoHiddenEnd (rs.map Ev.row) := by
   | cons r rs ih => simp [NoHiddenEnd, ih]
 
 
+theorem monoObserved_last (size : Nat) (rows : List Row) (last : Row) : ∀ lo,
+    (∀ r ∈ rows, r.endSequence = false) →
+    MonoObserved size lo (rows.map Ev.row ++ [Ev.row last]) →
+    lo ≤ last.address ∧ ∀ r ∈ rows, r.address ≤ last.address := by
+  induction rows with
+  | nil =>
+    intro lo _ h
+    simp only [List.map_nil, List.nil_append, MonoObserved] at h
+    exact ⟨h.1, by simp⟩
+  | cons r rs ih =>
+    intro lo hne h
+    simp only [List.map_cons, List.cons_append, MonoObserved] at h
+    have hr := hne r List.mem_cons_self
+    rw [hr] at h
+    simp only [Bool.false_eq_true, ↓reduceIte] at h
+    obtain ⟨h1, h2⟩ := ih r.address (fun x hx => hne x (List.mem_cons_of_mem _ hx)) h.2.2
+    refine ⟨by omega, fun x hx => ?_⟩
+    rcases List.mem_cons.mp hx with rfl | hx
+    · exact h1
+    · exact h2 x hx
+
+
 end Gimli.Line
